@@ -74,11 +74,33 @@ def ns(**kw):
 
 
 # --------------------------------------------------------------------------------------- decomposition monitor
+def tool_remembers_its_matrix(self, matrix_to_decompose):
+    """snapshot at construction: the matrix the tool was given is the one every later request is about"""
+    try:
+        M = self.matrix_to_decompose
+        if M.shape[0] <= 1500:
+            self._verif_M0 = np.array(M.todense() if sparse.issparse(M) else M, dtype=float)
+    except Exception as e:
+        REC.crashed("C14.oracle_error", e)
+    return True
+
+
 def decomposition_agrees_with_dense_solver(self, tol, maxiter, which, sigma, k, result):
     mon = "C14.decomposition"
     try:
         M = self.matrix_to_decompose
         Md = np.asarray(M.todense() if sparse.issparse(M) else M, dtype=float)
+        M0 = getattr(self, "_verif_M0", None)
+        if M0 is not None:
+            # the reference spectrum is that of the matrix the tool was constructed with; a request (also an earlier, failed one) must
+            # not leave the caller's matrix changed
+            if M0.shape != Md.shape or not np.array_equal(M0, Md):
+                REC.fail("C14.decomposition_input_untouched", {"problem": "the matrix held by the tool differs from the one it was constructed with",
+                                                                "max_abs_change": float(np.abs(M0 - Md).max()) if M0.shape == Md.shape else None,
+                                                                "which": which, "sigma": sigma})
+            else:
+                REC.ok("C14.decomposition_input_untouched")
+            Md = M0
         n = Md.shape[0]
         if n > 1500:
             REC.skip(mon, "matrix too large for the dense reference")
@@ -142,6 +164,7 @@ def decomposition_agrees_with_dense_solver(self, tol, maxiter, which, sigma, k, 
 
 def install():
     from molgri.molecules import transitions
+    attach.ensure(transitions.DecompositionTool, "__init__", tool_remembers_its_matrix)
     attach.ensure(transitions.DecompositionTool, "get_decomposition", decomposition_agrees_with_dense_solver)
     from vlib.props import c01, c20, c02, c09, c16, c13
     c01.install(); c20.install(); c02.install(); c09.install(); c16.install(); c13.install()
@@ -309,6 +332,7 @@ def pipeline(spec, rng, nprng, d, repo):
     # ---- stage 3: decomposition ---------------------------------------------------------------------------
     dense = np.sort(np.linalg.eigvals(Qd).real)[::-1]
     gap = abs(dense[1]) if n > 1 else 1.0
+    stiff = bool(spec.get("deep_well") or spec.get("ramp") or spec["factor"] not in (0.5, 1, 2))
     settings = []
     if n >= 16:
         settings.append(("workflow", dict(tol=1e-5, maxiter=100000, sigma="None", which="LR")))
@@ -318,10 +342,30 @@ def pipeline(spec, rng, nprng, d, repo):
             settings.append(("direct", dict(tol=rng.choice([1e-5, 1e-10]), maxiter=100000, sigma=None, which="LR", k=kk)))
             settings.append(("direct", dict(tol=1e-10, maxiter=100000, sigma=gap * rng.uniform(0.05, 0.4), which="LM", k=kk)))
             settings.append(("direct", dict(tol=1e-8, maxiter=100000, sigma=None, which=rng.choice(["SR", "LM", "SM"]), k=kk)))
-    if spec.get("deep_well") or spec.get("ramp") or spec["factor"] not in (0.5, 1, 2):
+    if stiff:
         # ARPACK needs very many iterations on stiff matrices (deep wells; rotational and translational rates differing by f^2 ~ 1e6):
         # fewer settings and a lower iteration cap keep the quick tier quick (non-convergence is counted as skipped)
         settings = [(h, dict(kw, maxiter=5000)) for h, kw in settings[:4]]
+    if spec.get("failed_first") and n > 6 and not stiff:
+        # history: the first request on a tool fails inside the solver (one iteration allowed); the same tool, and a new tool on the same
+        # matrix object, are then asked properly - nothing of the aborted call may be left in the matrix
+        try:
+            M0 = sparse.load_npz(rate_path)
+            CTX[id(M0)] = ctx
+            tool0 = transitions.DecompositionTool(M0)
+            try:
+                tool0.get_decomposition(tol=1e-14, maxiter=1, which="LR", sigma=None, k=3)
+                REC.classes["first decomposition request converged in one iteration"] += 1
+            except Exception as e:
+                REC.classes[f"first decomposition request failed: {type(e).__name__}"] += 1
+            tool0.get_decomposition(tol=1e-10, maxiter=100000, which="LR", sigma=None, k=3)
+            transitions.DecompositionTool(M0).get_decomposition(tol=1e-10, maxiter=100000, which="LR", sigma=None, k=4)
+            CTX.pop(id(M0), None)
+        except Exception as e:
+            if type(e).__name__ in ("ArpackNoConvergence", "ArpackError"):
+                REC.skip("C14.decomposition", "ARPACK did not converge (solver limit)")
+            else:
+                REC.crashed("C14.call_raised", e)
     shared_tool = None
     if spec.get("shared_tool"):
         # history: ONE DecompositionTool asked with several settings in turn (results must not depend on earlier requests)
@@ -408,10 +452,35 @@ def drive(spec, rng, nprng, repo):
         out = pipeline(spec, rng, nprng, d, repo)
         if out is not None and out[0] and out[1] >= 14 and spec["n_b"] >= 4:
             REC.nontrivial_case(spec)
+        for tw in (twins_of(spec, rng) if spec.get("twin") else []):
+            # history: the experiment is run again in the SAME folder and process for a grid of equal size (same numbers of cells and of
+            # neighbour pairs, same total volume): nothing remembered or left on disk from the first grid may be served for the second
+            REC.begin_case(tw, cls=["twin pipeline in the same folder"])
+            pipeline(tw, rng, nprng, d, repo)
     except Exception as e:
         REC.crashed("C14.call_raised", e)
     finally:
         shutil.rmtree(d, ignore_errors=True)
+
+
+def twins_of(spec, rng):
+    """a grid specification of the same shape: innermost radius moved (n_t >= 3; the total volume depends on the outer shells only) or the
+    sibling direction algorithm with the same N"""
+    tw = dict(spec)
+    radii = [float(x) for x in spec["t"].strip("[]").split(",")]
+    options = []
+    if len(radii) >= 3:
+        options.append("radius")
+    alg, N = spec["o"].split("_")
+    if not spec["cartesian"]:
+        options.append("algorithm")
+    out = []
+    if "algorithm" in options:
+        out.append(dict(tw, o=rng.choice([a for a in ("ico", "cube3D", "randomS") if a != alg]) + "_" + N, twin=False))
+    if "radius" in options:
+        radii[0] = round(radii[0] + (radii[1] - radii[0]) * rng.choice([0.3, 0.5]), 4)
+        out.append(dict(tw, t="[" + ", ".join(str(x) for x in radii) + "]", twin=False))
+    return out
 
 
 def shards(tier, seed):
@@ -433,7 +502,8 @@ def make_spec(rng):
     return {"b": f"{balg}_{n_b}" if n_b > 1 else "1", "o": f"{oalg}_{n_o}", "t": t, "factor": rng.choice([0.5, 1, 2, 2, 1500, 0.01]), "cartesian": cart,
             **({"deep_well": True} if (z := rng.random()) < 0.25 else {"ramp": True} if (z < 0.5 and T_ >= 3) else {}),   # never both: differences must stay below the cap
             "T": rng.choice([200.0, 273.0, 300.0, 400.0]), "D": rng.choice([0.1, 1.0, 27.5]), "route": rng.choice(["workflow", "workflow", "library"]),
-            "n_b": n_b, "energy_offset": rng.choice([0.0, 0.0, -4.0e5, 1.0e4]), "shared_tool": rng.random() < 0.5}
+            "n_b": n_b, "energy_offset": rng.choice([0.0, 0.0, -4.0e5, 1.0e4]), "shared_tool": rng.random() < 0.5,
+            "twin": rng.random() < 0.5, "failed_first": rng.random() < 0.4}
 
 
 def run_shard(spec):
@@ -453,8 +523,10 @@ def run_shard(spec):
                  "energy_spread": 5.0},   # the same through the literal workflow rules (their saved files are judged)
              7: {"b": "4", "o": "ico_7", "t": "[0.2, 0.3, 0.4]", "factor": 1, "cartesian": False, "T": 300.0, "D": 1.0, "route": "workflow", "n_b": 4,
                  "ramp": True},
-             4: {"b": "1", "o": "ico_12", "t": "[0.2, 0.3, 0.45]", "factor": 2, "cartesian": False, "T": 220.0, "D": 1.0, "route": "library", "n_b": 1, "deep_well": True},
-             1: {"b": "1", "o": "ico_12", "t": "[0.2, 0.3]", "factor": 1, "cartesian": False, "T": 300.0, "D": 1.0, "route": "workflow", "n_b": 1},
+             4: {"b": "1", "o": "ico_12", "t": "[0.2, 0.3, 0.45]", "factor": 2, "cartesian": False, "T": 220.0, "D": 1.0, "route": "library", "n_b": 1, "deep_well": True,
+                 "twin": True},
+             1: {"b": "1", "o": "ico_12", "t": "[0.2, 0.3]", "factor": 1, "cartesian": False, "T": 300.0, "D": 1.0, "route": "workflow", "n_b": 1,
+                 "twin": True, "failed_first": True},
              2: {"b": "4", "o": "cube3D_4", "t": "[0.2, 0.35]", "factor": 2, "cartesian": False, "T": 273.0, "D": 1.0, "route": "library", "n_b": 4}}
     k = spec["rseed"] % 1000
     if k in fixed:
